@@ -33,7 +33,8 @@ SHARDS = {"quick": 8, "thorough": 16}
 TIMEOUT = {"quick": 400, "thorough": 3400}
 FLOORS = {"expected.secondary.equipment": 20, "expected.secondary.host": 20, "expected.s9f5.equipment": 20, "expected.s9f5.host": 20,
           "expected.abort_or_secondary.equipment": 20, "expected.abort_or_secondary.host": 20, "expected.none.equipment": 20,
-          "expected.none.host": 20, "expected.user_abort": 10}
+          "expected.none.host": 20, "expected.user_abort": 10, "user_callback.lifecycle_probes": 20,
+          "collision_probe.primaries_reusing_system_bytes_of_a_timed_out_request": 5}
 
 
 def _callbacks(handler, classes):
@@ -235,7 +236,105 @@ def _sequence(ctx, role, classes, cat, seqlen):
                     ctx.violation(f"unexpected-frames-for-primary-without-W-bit:{len(mine)}", wit)
     if ctx.evaluations < 40:
         ctx.sample({"role": role, "sequence": [f"S{p['s']}F{p['f']}{'W' if p['wbit'] else ''}:{p['kind']}->{p['expect']}" for p in injected][:10]})
+    _lifecycle_probe(ctx, rig, role, classes, user, sysgen)
+    if rng.random() < 0.25:
+        _collision_probe(ctx, rig, role, sysgen)
     rig.shutdown()
+
+
+def _one(ctx, rig, s, f, system, body=b"", timeout=6.0):
+    """Inject one W primary and return the data frames that carry its system bytes."""
+    from lib import wire
+
+    n0 = rig.n_frames()
+    rig.injected_systems.add(system)
+    rig.pipe.feed(wire.hsms_data(s, f, True, system, body))
+
+    def got():
+        return any(fr.system == system for _, fr in rig.data_frames(n0))
+    if not rig.wait(got, timeout=timeout):
+        rig.confirm_absent(got, 0.4)
+    rig.quiesce(0.5)
+    return [fr for _, fr in rig.data_frames(n0) if fr.system == system]
+
+
+def _lifecycle_probe(ctx, rig, role, classes, user, sysgen):
+    """One user callback through its life: registered -> serves a primary -> unregistered -> the same primary again."""
+    handler = rig.handler
+    cands = [(s, f) for (s, f) in [(99, 1), (64, 3), (3, 21), (12, 1), (13, 3)] if (s, f) not in user and f"s{s:02d}f{f:02d}" not in handler.callbacks]
+    if not cands:
+        return
+    s, f = ctx.rng.choice(cands)
+    calls = []
+
+    def cb(h, m):
+        calls.append(m.header.system)
+        raise RuntimeError("user callback fails")      # answered with the stream's abort
+    handler.register_stream_function(s, f, cb)
+    wit = {"role": role, "primary": f"S{s}F{f}W", "history": "register, primary, unregister, primary"}
+    sys1 = next(sysgen)
+    first = _one(ctx, rig, s, f, sys1)
+    ctx.count("expected.user_abort")
+    if [(x.stream, x.function) for x in first] != [(s, 0)] or calls != [sys1]:
+        ctx.violation(f"failing-callback-not-answered-by-one-abort:{len(first)}-replies", {**wit, "replies": [x.describe() for x in first], "callback_calls": len(calls)})
+        return
+    handler.unregister_stream_function(s, f)
+    sys2 = next(sysgen)
+    second = _one(ctx, rig, s, f, sys2)
+    ctx.count("user_callback.lifecycle_probes")
+    ctx.case(("lifecycle", role, s, f), nontrivial=True)
+    header = bytes([0, 0, 0x80 | s, f, 0, 0]) + sys2.to_bytes(4, "big")
+    ok = [(x.stream, x.function) for x in second] == [(9, 5)]
+    if ok:
+        try:
+            tree = e5ref.decode_all(second[0].body)
+            ok = tree[0] == "B" and bytes(tree[1]) == header
+        except Exception:
+            ok = False
+    if not ok or len(calls) != 1:
+        ctx.violation("unregistered-callback-still-serves-primaries" if len(calls) != 1 else f"unhandled-primary-not-answered-by-one-S9F5:{len(second)}-replies",
+                      {**wit, "replies": [x.describe() for x in second], "callback_calls_after_unregister": len(calls) - 1})
+
+
+def _collision_probe(ctx, rig, role, sysgen):
+    """A request of the handler runs into T3; afterwards the peer happens to use the same system bytes for a primary of its
+    own (each side numbers its transactions independently). The primary must be answered like any other."""
+    import threading
+
+    import secsgem.secs.functions as F
+    from lib import stuck
+
+    handler = rig.handler
+    held = []
+    old = rig.auto_policy.get((1, 1))
+    rig.auto_policy[(1, 1)] = lambda fr: (held.append(fr), None)[1]      # never answered
+    box = {}
+    done = threading.Event()
+
+    @stuck.harness_thread
+    def run():
+        try:
+            box["r"] = handler.send_and_waitfor_response(F.SecsS01F01())
+        except Exception as exc:
+            box["exc"] = repr(exc)
+        done.set()
+    threading.Thread(target=run, daemon=True, name="harness-requester").start()
+    ok = done.wait(8.0)        # T3 of this rig is 1 s
+    if old is None:
+        rig.auto_policy.pop((1, 1), None)
+    else:
+        rig.auto_policy[(1, 1)] = old
+    if not ok or not held or box.get("r") is not None or "exc" in box:
+        ctx.count("collision_probe.not_set_up")
+        return
+    system = held[-1].system
+    replies = _one(ctx, rig, 1, 1, system)        # S1F1 W: are you there
+    ctx.count("collision_probe.primaries_reusing_system_bytes_of_a_timed_out_request")
+    ctx.case(("collision", role), nontrivial=True)
+    # S1F2, or S1F0 from an equipment whose control state is OFF-LINE: one reply with these system bytes either way
+    if len(replies) != 1 or (replies[0].stream, replies[0].function) not in ((1, 2), (1, 0)):
+        ctx.violation(f"primary-with-system-bytes-of-a-timed-out-request-not-answered:{len(replies)}-replies",
+                      {"role": role, "primary": "S1F1W", "system": hex(system), "replies": [x.describe() for x in replies]})
 
 
 def run(ctx):
